@@ -50,11 +50,8 @@ def isSpaceRune (r : Nat) : Bool :=
 def trimLeft : Nat → Bytes → Bytes
   | 0, b => b
   | fuel + 1, b =>
-    match b with
-    | [] => []
-    | _ =>
-      let (r, w) := decodeRune b
-      if isSpaceRune r then trimLeft fuel (b.drop w) else b
+    if b.isEmpty then []
+    else if isSpaceRune (decodeRune b).1 then trimLeft fuel (b.drop (decodeRune b).2) else b
 
 /-- `utf8.DecodeLastRune`: the last rune of `b` and its width. -/
 def decodeLastRune (b : Bytes) : Nat × Nat :=
@@ -85,11 +82,8 @@ def decodeLastRune (b : Bytes) : Nat × Nat :=
 def trimRight : Nat → Bytes → Bytes
   | 0, b => b
   | fuel + 1, b =>
-    match b with
-    | [] => []
-    | _ =>
-      let (r, w) := decodeLastRune b
-      if isSpaceRune r then trimRight fuel (b.take (b.length - w)) else b
+    if b.isEmpty then []
+    else if isSpaceRune (decodeLastRune b).1 then trimRight fuel (b.take (b.length - (decodeLastRune b).2)) else b
 
 /-- `strings.TrimSpace` -/
 def trimSpace (b : Bytes) : Bytes := trimRight (b.length + 1) (trimLeft (b.length + 1) b)
